@@ -231,6 +231,7 @@ theorem inv_doFlush (c : Cfg) (s s1 : St) (hi : Inv s) (h : doFlush c s = some s
 
 theorem inv_expireMap (s : St) (hi : Inv s) :
     Inv { s with saved := none, txn := false, fresh := fun _ => false,
+                 sp := none, spFresh := fun _ => false, spDirty := fun _ => false,
                  objs := fun k => (s.objs k).map (fun o => { o with val := none, mod := false }) } := by
   intro k
   simp only
@@ -246,10 +247,11 @@ theorem inv_init : Inv St.init := fun _ => invSlot_none _
 /-- the operation neither is nor triggers a rollback (explicit `rollback()`, or a flush that
     fails) in the reference semantics -/
 def Calm (c : Cfg) (s : St) (op : Op) : Prop :=
-  op ≠ .rollback ∧ (step c s op).2 ≠ .integrity
+  op ≠ .rollback ∧ op ≠ .rollbackNested ∧ (step c s op).2 ≠ .integrity
 
 theorem inv_stepLive (c : Cfg) (s : St) (op : Op) (hi : Inv s)
-    (hnr : op ≠ .rollback) (hni : (stepLive c s op).2 ≠ .integrity) : Inv (stepLive c s op).1 := by
+    (hnr : op ≠ .rollback) (hnn : op ≠ .rollbackNested)
+    (hni : (stepLive c s op).2 ≠ .integrity) : Inv (stepLive c s op).1 := by
   cases op with
   | get k => exact inv_putSlot s k _ hi (invSlot_get _ _ _ (hi k))
   | set k v => exact inv_putSlot s k _ hi (invSlot_set v _ _ _ (hi k))
@@ -260,6 +262,25 @@ theorem inv_stepLive (c : Cfg) (s : St) (op : Op) (hi : Inv s)
   | expireVal k => exact inv_putSlot s k _ hi (invSlot_expVal _ _ _ (hi k))
   | expireId k => exact inv_putSlot s k _ hi (invSlot_expId _ _ _ (hi k))
   | begin => exact hi
+  | beginNested =>
+    simp only [stepLive] at hni ⊢
+    split
+    · exact hi
+    · rename_i hsp
+      simp only [hsp, if_false] at hni
+      cases h : doFlush c s with
+      | none => simp [h] at hni
+      | some s1 => exact fun k => inv_doFlush c s s1 hi h k
+  | rollbackNested => exact absurd rfl hnn
+  | releaseNested =>
+    simp only [stepLive] at hni ⊢
+    cases hsp : s.sp with
+    | none => exact hi
+    | some d =>
+      simp only [hsp] at hni ⊢
+      cases h : doFlush c s with
+      | none => simp [h] at hni
+      | some s1 => exact fun k => inv_doFlush c s s1 hi h k
   | flush =>
     simp only [stepLive] at hni ⊢
     cases h : doFlush c s with
@@ -296,13 +317,16 @@ theorem inv_stepDead (c : Cfg) (s : St) (op : Op) (hi : Inv s) : Inv (stepDead c
   | flush => exact hi
   | commit => exact hi
   | rollback => exact hi
+  | beginNested => exact hi
+  | rollbackNested => exact hi
+  | releaseNested => exact hi
 
 /-- the invariant holds along every rollback-free history of the reference semantics -/
 theorem inv_step (c : Cfg) (s : St) (op : Op) (hi : Inv s) (hq : Calm c s op) : Inv (step c s op).1 := by
-  obtain ⟨hnr, hni⟩ := hq
+  obtain ⟨hnr, hnn, hni⟩ := hq
   unfold step at hni ⊢
   by_cases hl : live c s = true
-  · simp only [hl, if_true] at hni ⊢; exact inv_stepLive c s op hi hnr hni
+  · simp only [hl, if_true] at hni ⊢; exact inv_stepLive c s op hi hnr hnn hni
   · simp only [hl, Bool.false_eq_true, if_false]; exact inv_stepDead c s op hi
 
 /-! ## the simulation -/
@@ -318,6 +342,7 @@ structure Sim (g s : St) : Prop where
   new : g.new = s.new
   txn : g.txn = s.txn
   objs : ∀ k, Rel (g.objs k) (s.objs k)
+  sp : g.sp = s.sp
 
 theorem rel_refl (o : Option Obj) : Rel o o := Or.inl rfl
 
@@ -469,7 +494,7 @@ theorem rel_touched {og os : Option Obj} (h : Rel og os) : touchedOpt og = touch
 theorem sim_putSlot {g s : St} (hs : Sim g s) (k : Nat) (rg rs : Slot × Out) (h : SlotSim rg rs) :
     Sim (putSlot g k rg).1 (putSlot s k rs).1 ∧ (putSlot g k rg).2 = (putSlot s k rs).2 := by
   obtain ⟨h1, h2, h3⟩ := h
-  refine ⟨⟨hs.db, hs.saved, ?_, hs.txn, ?_⟩, h2⟩
+  refine ⟨⟨hs.db, hs.saved, ?_, hs.txn, ?_, hs.sp⟩, h2⟩
   · funext j
     simp only [putSlot]
     by_cases hj : j = k
@@ -483,7 +508,7 @@ theorem sim_putSlot {g s : St} (hs : Sim g s) (k : Nat) (rg rs : Slot × Out) (h
 
 /-- collection keeps the simulation -/
 theorem sim_collect {g s : St} (hs : Sim g s) : Sim (collect g) s := by
-  refine ⟨hs.db, hs.saved, hs.new, hs.txn, ?_⟩
+  refine ⟨hs.db, hs.saved, hs.new, hs.txn, ?_, hs.sp⟩
   intro k
   simp only [collect]
   rcases hs.objs k with h | ⟨h, o, ho, ha, hst⟩
@@ -548,7 +573,7 @@ theorem sim_doFlush (c : Cfg) {g s : St} (hs : Sim g s) :
     · left; simp [hd]
     · right
       simp only [hd, Bool.false_eq_true, if_false]
-      refine ⟨_, _, rfl, rfl, ⟨?_, ?_, ?_, ?_, ?_⟩⟩
+      refine ⟨_, _, rfl, rfl, ⟨?_, ?_, ?_, ?_, ?_, hs.sp⟩⟩
       · funext k
         simp only
         by_cases hk : k < c.n
@@ -579,7 +604,7 @@ theorem sim_len (c : Cfg) {g s : St} (hs : Sim g s) :
   ⟨hs, Or.inr ⟨_, _, rfl, rfl⟩⟩
 
 theorem sim_stepLive (c : Cfg) {g s : St} (op : Op) (hs : Sim g s) (hi : Inv s)
-    (hnr : op ≠ .rollback) (hni : (stepLive c s op).2 ≠ .integrity) :
+    (hnr : op ≠ .rollback) (hnn : op ≠ .rollbackNested) (hni : (stepLive c s op).2 ≠ .integrity) :
     Sim (stepLive c g op).1 (stepLive c s op).1 ∧ ObsEq (stepLive c g op).2 (stepLive c s op).2 := by
   cases op with
   | get k =>
@@ -623,6 +648,29 @@ theorem sim_stepLive (c : Cfg) {g s : St} (op : Op) (hs : Sim g s) (hi : Inv s)
     obtain ⟨h1, h2⟩ := sim_putSlot hs k _ _ (sim_expId (s.new k) _ _ (hs.objs k))
     exact ⟨h1, Or.inl h2⟩
   | begin => exact ⟨hs, Or.inl rfl⟩
+  | beginNested =>
+    simp only [stepLive] at hni ⊢
+    rw [hs.sp]
+    cases hsp : s.sp with
+    | some d => simp only [Option.isSome_some, if_true]; exact ⟨hs, Or.inl rfl⟩
+    | none =>
+      simp only [hsp, Option.isSome_none, Bool.false_eq_true, if_false] at hni ⊢
+      rcases sim_doFlush c hs with ⟨hg, hs'⟩ | ⟨g1, s1, hg, hs', h1⟩
+      · simp [hs'] at hni
+      · rw [hg, hs']
+        exact ⟨⟨h1.db, h1.saved, h1.new, h1.txn, h1.objs, by simp only [h1.db]⟩, Or.inl rfl⟩
+  | rollbackNested => exact absurd rfl hnn
+  | releaseNested =>
+    simp only [stepLive] at hni ⊢
+    rw [hs.sp]
+    cases hsp : s.sp with
+    | none => exact ⟨hs, Or.inl rfl⟩
+    | some d =>
+      simp only [hsp] at hni ⊢
+      rcases sim_doFlush c hs with ⟨hg, hs'⟩ | ⟨g1, s1, hg, hs', h1⟩
+      · simp [hs'] at hni
+      · rw [hg, hs']
+        exact ⟨⟨h1.db, h1.saved, h1.new, h1.txn, h1.objs, rfl⟩, Or.inl rfl⟩
   | flush =>
     simp only [stepLive] at hni ⊢
     rcases sim_doFlush c hs with ⟨hg, hs'⟩ | ⟨g1, s1, hg, hs', h1⟩
@@ -633,7 +681,7 @@ theorem sim_stepLive (c : Cfg) {g s : St} (op : Op) (hs : Sim g s) (hi : Inv s)
     rcases sim_doFlush c hs with ⟨hg, hs'⟩ | ⟨g1, s1, hg, hs', h1⟩
     · simp [hs'] at hni
     · rw [hg, hs']
-      refine ⟨⟨h1.db, rfl, h1.new, rfl, ?_⟩, Or.inl rfl⟩
+      refine ⟨⟨h1.db, rfl, h1.new, rfl, ?_, rfl⟩, Or.inl rfl⟩
       intro k
       by_cases he : c.eoc = true
       · simp only [he, if_true]; exact rel_map_expire (h1.objs k)
@@ -659,7 +707,7 @@ theorem sim_stepDead (c : Cfg) {g s : St} (op : Op) (hs : Sim g s) :
     rw [hs.new]
     obtain ⟨h1, h2⟩ := sim_putSlot hs k _ _ (sim_drop (s.new k) _ _ (hs.objs k))
     exact ⟨h1, Or.inl h2⟩
-  | begin => exact ⟨⟨hs.db, hs.saved, hs.new, rfl, hs.objs⟩, Or.inl rfl⟩
+  | begin => exact ⟨⟨hs.db, hs.saved, hs.new, rfl, hs.objs, hs.sp⟩, Or.inl rfl⟩
   | len => exact sim_len c hs
   | get k => exact ⟨hs, Or.inl rfl⟩
   | del k => exact ⟨hs, Or.inl rfl⟩
@@ -670,17 +718,20 @@ theorem sim_stepDead (c : Cfg) {g s : St} (op : Op) (hs : Sim g s) :
   | flush => exact ⟨hs, Or.inl rfl⟩
   | commit => exact ⟨hs, Or.inl rfl⟩
   | rollback => exact ⟨hs, Or.inl rfl⟩
+  | beginNested => exact ⟨hs, Or.inl rfl⟩
+  | rollbackNested => exact ⟨hs, Or.inl rfl⟩
+  | releaseNested => exact ⟨hs, Or.inl rfl⟩
 
 /-- one step of the reference semantics simulates one step of the other, without the
     final collection -/
 theorem sim_step_raw (c : Cfg) {g s : St} (op : Op) (hs : Sim g s) (hi : Inv s) (hq : Calm c s op) :
     Sim (step c g op).1 (step c s op).1 ∧ ObsEq (step c g op).2 (step c s op).2 := by
-  obtain ⟨hnr, hni⟩ := hq
+  obtain ⟨hnr, hnn, hni⟩ := hq
   have hl : live c g = live c s := by unfold live; rw [hs.txn]
   unfold step at hni ⊢
   rw [hl]
   by_cases hls : live c s = true
-  · simp only [hls, if_true] at hni ⊢; exact sim_stepLive c op hs hi hnr hni
+  · simp only [hls, if_true] at hni ⊢; exact sim_stepLive c op hs hi hnr hnn hni
   · simp only [hls, Bool.false_eq_true, if_false]; exact sim_stepDead c op hs
 
 theorem sim_step (c : Cfg) {g s : St} (op : Op) (hs : Sim g s) (hi : Inv s) (hq : Calm c s op) :
@@ -688,7 +739,7 @@ theorem sim_step (c : Cfg) {g s : St} (op : Op) (hs : Sim g s) (hi : Inv s) (hq 
   obtain ⟨h1, h2⟩ := sim_step_raw c op hs hi hq
   exact ⟨sim_collect h1, h2⟩
 
-theorem sim_init : Sim St.init St.init := ⟨rfl, rfl, rfl, rfl, fun _ => rel_refl _⟩
+theorem sim_init : Sim St.init St.init := ⟨rfl, rfl, rfl, rfl, fun _ => rel_refl _, rfl⟩
 
 /-- pointwise `ObsEq` of two output lists -/
 inductive ObsEqL : List Out → List Out → Prop
@@ -748,6 +799,21 @@ theorem gc_unobservable_counterexample :
       [.done, .done, .done, .val (some 1), .done, .num 0, .skip, .done] := by
   decide
 
+/-- the stale value: inside a savepoint change an object and flush, drop it (collected), load
+    the row again, roll the savepoint back.  The savepoint only knows the collected instance
+    (`_dirty` is weak), so the re-loaded one is not expired and keeps the value the rollback
+    discarded; the Session that kept the first instance alive expires it and reads the row. -/
+def staleOps : List Op :=
+  [.add 0 1, .commit, .get 0, .beginNested, .set 0 5, .flush, .drop 0, .get 0, .rollbackNested, .get 0]
+
+theorem savepoint_stale_counterexample :
+    outsGc ⟨1, false, true⟩ St.init staleOps =
+      [.done, .done, .val (some 1), .done, .done, .done, .done, .val (some 5), .done, .val (some 5)] ∧
+    outs ⟨1, false, true⟩ St.init staleOps =
+      [.done, .done, .val (some 1), .done, .done, .done, .done, .val (some 5), .done, .val (some 1)] ∧
+    (runGc ⟨1, false, true⟩ St.init staleOps).db 0 = some 1 := by
+  decide
+
 /-! ## what collection does to one state -/
 
 /-- **collect_keeps_strong**: a modified or deleted-marked object is never collected,
@@ -761,7 +827,7 @@ theorem collect_keeps_strong (st : St) (k : Nat) (o : Obj) (ho : st.objs k = som
 theorem collect_flush_db (c : Cfg) (st : St) :
     (doFlush c (collect st) = none ∧ doFlush c st = none) ∨
     ∃ g1 s1, doFlush c (collect st) = some g1 ∧ doFlush c st = some s1 ∧ g1.db = s1.db := by
-  have hs : Sim (collect st) st := sim_collect ⟨rfl, rfl, rfl, rfl, fun _ => rel_refl _⟩
+  have hs : Sim (collect st) st := sim_collect ⟨rfl, rfl, rfl, rfl, fun _ => rel_refl _, rfl⟩
   rcases sim_doFlush c hs with h | ⟨g1, s1, h1, h2, h3⟩
   · exact Or.inl h
   · exact Or.inr ⟨g1, s1, h1, h2, h3.db⟩
@@ -793,6 +859,182 @@ theorem refused_change_keeps_strong (c : Cfg) (st : St) (k : Nat) (v : Int) (o :
     ∃ o', (stepGc c st (.set k v)).1.objs k = some o' ∧ o'.touched = true ∧ o'.val = o.val := by
   simp [stepGc, step, hl, stepDead, hnone, putSlot, setDeadSlot, hn, ho, ha, hd, collect, strong]
 
+/-! ## savepoints: what was changed before `begin_nested()` survives the rollback of the savepoint -/
+
+/-- either semantics: with (`gc = true`) or without collection after every operation -/
+def stepB (gc : Bool) (c : Cfg) (s : St) (op : Op) : St × Out :=
+  if gc then stepGc c s op else step c s op
+
+def runB (gc : Bool) (c : Cfg) : St → List Op → St
+  | s, [] => s
+  | s, o :: os => runB gc c (stepB gc c s o).1 os
+
+theorem stepB_fields (gc : Bool) (c : Cfg) (s : St) (op : Op) :
+    (stepB gc c s op).1.db = (step c s op).1.db ∧ (stepB gc c s op).1.sp = (step c s op).1.sp ∧
+    (stepB gc c s op).1.txn = (step c s op).1.txn ∧ (stepB gc c s op).2 = (step c s op).2 := by
+  cases gc <;> simp [stepB, stepGc, collect]
+
+theorem runB_append (gc : Bool) (c : Cfg) : ∀ (a b : List Op) (s : St),
+    runB gc c s (a ++ b) = runB gc c (runB gc c s a) b
+  | [], _, _ => rfl
+  | x :: xs, b, s => by simp only [List.cons_append, runB]; exact runB_append gc c xs b _
+
+theorem doFlush_keeps (c : Cfg) (s s1 : St) (h : doFlush c s = some s1) :
+    s1.sp = s.sp ∧ s1.txn = s.txn := by
+  unfold doFlush at h
+  split at h
+  · cases h; exact ⟨rfl, rfl⟩
+  · split at h
+    · cases h
+    · cases h; exact ⟨rfl, rfl⟩
+
+theorem strongOpt_flushObj (nw : Option (Int × Bool)) (o : Option Obj) :
+    strongOpt (flushObj nw o) = false := by
+  unfold flushObj
+  cases nw with
+  | some p => obtain ⟨v, a⟩ := p; simp [strongOpt, strong]
+  | none =>
+    cases o with
+    | none => rfl
+    | some ob =>
+      by_cases hd : ob.del = true
+      · simp [hd, strongOpt]
+      · simp [hd, strongOpt, strong]
+
+/-- **flush_leaves_no_work**: after a successful flush nothing is pending -/
+theorem flush_leaves_no_work (c : Cfg) (s s1 : St) (h : doFlush c s = some s1) :
+    hasWork c s1 = false := by
+  unfold doFlush at h
+  split at h
+  · rename_i hw; cases h; simpa using hw
+  · split at h
+    · cases h
+    · cases h
+      simp only [hasWork, anyBelow, List.any_eq_false, List.mem_range]
+      intro k hk
+      simp [hk, strongOpt_flushObj]
+
+/-- **begin_nested_flushes**: `begin_nested()` flushes whatever `autoflush` says — when it
+    succeeds nothing is pending any more and the savepoint is the database with every earlier
+    change in it -/
+theorem begin_nested_flushes (c : Cfg) (s s' : St) (hl : live c s = true) (hsp : s.sp = none)
+    (h : step c s .beginNested = (s', .done)) :
+    ∃ s1, doFlush c s = some s1 ∧ s'.db = s1.db ∧ s'.sp = some s1.db ∧ hasWork c s' = false := by
+  simp only [step, hl, if_true, stepLive, hsp, Option.isSome_none, Bool.false_eq_true, if_false] at h
+  cases hf : doFlush c s with
+  | none => simp [hf] at h
+  | some s1 =>
+    simp only [hf, Prod.mk.injEq, and_true] at h
+    subst h
+    exact ⟨s1, rfl, rfl, rfl, flush_leaves_no_work c s s1 hf⟩
+
+/-- **flush_writes_pending_change**: a flush writes the value of a modified persistent object
+    whose row exists — whether or not the application still holds the object -/
+theorem flush_writes_pending_change (c : Cfg) (s s1 : St) (k : Nat) (o : Obj) (r : Int)
+    (h : doFlush c s = some s1) (hk : k < c.n) (hn : s.new k = none) (ho : s.objs k = some o)
+    (hm : o.mod = true) (hd : o.del = false) (hr : s.db k = some r) : s1.db k = o.val := by
+  have hw : hasWork c s = true := by
+    simp only [hasWork, anyBelow, List.any_eq_true, List.mem_range]
+    exact ⟨k, hk, by simp [ho, strongOpt, strong, hm]⟩
+  unfold doFlush at h
+  simp only [hw, Bool.not_true, Bool.false_eq_true, if_false] at h
+  split at h
+  · cases h
+  · cases h
+    simp [hk, hn, ho, flushRow, hd, hm, hr]
+
+/-- operations that stay inside the open savepoint: they do not end it (commit, rollback,
+    release, rollback of the savepoint) and no flush among them fails -/
+def InsideRun (gc : Bool) (c : Cfg) : St → List Op → Prop
+  | _, [] => True
+  | s, op :: rest =>
+    op ≠ .commit ∧ op ≠ .rollback ∧ op ≠ .releaseNested ∧ op ≠ .rollbackNested ∧
+    (step c s op).2 ≠ .integrity ∧ InsideRun gc c (stepB gc c s op).1 rest
+
+theorem inside_step (c : Cfg) (s : St) (op : Op) (d : DB) (hsp : s.sp = some d) (hl : live c s = true)
+    (h1 : op ≠ .commit) (h2 : op ≠ .rollback) (h3 : op ≠ .releaseNested) (h4 : op ≠ .rollbackNested)
+    (hni : (step c s op).2 ≠ .integrity) :
+    (step c s op).1.sp = some d ∧ live c (step c s op).1 = true := by
+  unfold step at hni ⊢
+  simp only [hl, if_true] at hni ⊢
+  unfold live at hl ⊢
+  cases op with
+  | get k => exact ⟨hsp, hl⟩
+  | set k v => exact ⟨hsp, hl⟩
+  | del k => exact ⟨hsp, hl⟩
+  | add k v => exact ⟨hsp, hl⟩
+  | drop k => exact ⟨hsp, hl⟩
+  | expire k => exact ⟨hsp, hl⟩
+  | expireVal k => exact ⟨hsp, hl⟩
+  | expireId k => exact ⟨hsp, hl⟩
+  | begin => exact ⟨hsp, hl⟩
+  | len => exact ⟨hsp, hl⟩
+  | beginNested => simp only [stepLive, hsp, Option.isSome_some, if_true]; exact ⟨trivial, hl⟩
+  | flush =>
+    simp only [stepLive] at hni ⊢
+    cases hf : doFlush c s with
+    | none => simp [hf] at hni
+    | some s1 =>
+      obtain ⟨e1, e2⟩ := doFlush_keeps c s s1 hf
+      simp only [e1, e2]; exact ⟨hsp, hl⟩
+  | commit => exact absurd rfl h1
+  | rollback => exact absurd rfl h2
+  | releaseNested => exact absurd rfl h3
+  | rollbackNested => exact absurd rfl h4
+
+theorem inside_run (gc : Bool) (c : Cfg) (d : DB) : ∀ (ops : List Op) (s : St), s.sp = some d → live c s = true →
+    InsideRun gc c s ops → (runB gc c s ops).sp = some d ∧ live c (runB gc c s ops) = true
+  | [], _, hsp, hl, _ => ⟨hsp, hl⟩
+  | op :: rest, s, hsp, hl, ⟨h1, h2, h3, h4, hni, hrest⟩ => by
+    obtain ⟨e1, e2⟩ := inside_step c s op d hsp hl h1 h2 h3 h4 hni
+    obtain ⟨f1, f2, f3, _⟩ := stepB_fields gc c s op
+    simp only [runB]
+    apply inside_run gc c d rest _ (by rw [f2]; exact e1) (by unfold live at e2 ⊢; rw [f3]; exact e2) hrest
+
+/-- **savepoint_rollback_restores_flushed_state**: `begin_nested()`, any operations inside the
+    savepoint (changes, drops, collections, flushes), then the rollback of the savepoint: the
+    database is the one `begin_nested()` flushed — with or without garbage collection -/
+theorem savepoint_rollback_restores_flushed_state (gc : Bool) (c : Cfg) (s s1 : St) (ops : List Op)
+    (hl : live c s = true) (hsp : s.sp = none) (hf : doFlush c s = some s1)
+    (hin : InsideRun gc c (stepB gc c s .beginNested).1 ops) :
+    (runB gc c s (.beginNested :: ops ++ [.rollbackNested])).db = s1.db := by
+  have hb : step c s .beginNested =
+      ({ s1 with sp := some s1.db, spFresh := fun _ => false, spDirty := fun _ => false }, .done) := by
+    simp [step, hl, stepLive, hsp, hf]
+  obtain ⟨b1, b2, b3, _⟩ := stepB_fields gc c s .beginNested
+  have hsp1 : (stepB gc c s .beginNested).1.sp = some s1.db := by rw [b2, hb]
+  have hl1 : live c (stepB gc c s .beginNested).1 = true := by
+    unfold live at hl ⊢; rw [b3, hb]; simp only; rw [(doFlush_keeps c s s1 hf).2]; exact hl
+  obtain ⟨e1, e2⟩ := inside_run gc c s1.db ops _ hsp1 hl1 hin
+  simp only [List.cons_append, runB]
+  rw [runB_append]
+  simp only [runB]
+  obtain ⟨r1, _, _, _⟩ := stepB_fields gc c (runB gc c (stepB gc c s .beginNested).1 ops) .rollbackNested
+  rw [r1]
+  simp [step, e2, stepLive, e1, rolledBackNested]
+
+/-- **outer_change_survives_savepoint_rollback**: a change of a persistent object that is
+    pending when `begin_nested()` is called is in the database after the savepoint was
+    rolled back, whatever happened inside the savepoint and whether or not the application
+    still holds the object (`o.app`) -/
+theorem outer_change_survives_savepoint_rollback (gc : Bool) (c : Cfg) (s s1 : St) (ops : List Op)
+    (k : Nat) (o : Obj) (r : Int)
+    (hl : live c s = true) (hsp : s.sp = none) (hf : doFlush c s = some s1)
+    (hin : InsideRun gc c (stepB gc c s .beginNested).1 ops)
+    (hk : k < c.n) (hn : s.new k = none) (ho : s.objs k = some o)
+    (hm : o.mod = true) (hd : o.del = false) (hr : s.db k = some r) :
+    (runB gc c s (.beginNested :: ops ++ [.rollbackNested])).db k = o.val := by
+  rw [savepoint_rollback_restores_flushed_state gc c s s1 ops hl hsp hf hin]
+  exact flush_writes_pending_change c s s1 k o r hf hk hn ho hm hd hr
+
+/-- the demo of the seeded change: a pending change, the reference dropped and collected, a
+    savepoint with a failing step rolled back, then commit: the change is in the database -/
+example :
+    let c : Cfg := ⟨2, true, true⟩
+    (runGc c St.init [.add 0 1, .add 1 2, .commit, .get 0, .set 0 7, .drop 0, .beginNested, .add 1 9, .flush,
+      .rollbackNested, .commit]).db 0 = some 7 := by
+  decide
+
 /-! ## non-vacuity -/
 
 /-- decidable form of `CalmRun` -/
@@ -801,6 +1043,7 @@ def calmB (c : Cfg) : St → List Op → Bool
   | s, op :: rest =>
     (match op with
      | .rollback => false
+     | .rollbackNested => false
      | _ => true) && ((step c s op).2 != .integrity) && calmB c (step c s op).1 rest
 
 theorem calmRun_of_calmB (c : Cfg) : ∀ (ops : List Op) (s : St), calmB c s ops = true → CalmRun c s ops := by
@@ -810,10 +1053,13 @@ theorem calmRun_of_calmB (c : Cfg) : ∀ (ops : List Op) (s : St), calmB c s ops
   | cons op rest ih =>
     intro s h
     simp only [calmB, Bool.and_eq_true, bne_iff_ne, ne_eq] at h
-    refine ⟨⟨?_, h.1.2⟩, ih _ h.2⟩
-    intro he
-    subst he
-    simp at h
+    refine ⟨⟨?_, ?_, h.1.2⟩, ih _ h.2⟩
+    · intro he
+      subst he
+      simp at h
+    · intro he
+      subst he
+      simp at h
 
 /-- the hypothesis of `gc_unobservable_partial` is satisfiable by a history with drops,
     collections and flushes -/
